@@ -21,6 +21,7 @@ type BrokerCfg struct {
 	GrantedQoSCap byte                              // when Route: deliver with min(pub qos, granted)
 	PingrespDelay time.Duration                     // PINGRESP is sent that much later (virtual time)
 	AckDelay      time.Duration                     // PUBACK/PUBREC/PUBCOMP/PUBREL/SUBACK/UNSUBACK are sent that much later
+	CloseDelay    time.Duration                     // the connection is closed that long after a DISCONNECT / refused CONNECT (0: at once)
 }
 
 type brokerSess struct {
@@ -214,7 +215,11 @@ func (b *Broker) Handler() func(s *Session, p *mqttref.Pkt) {
 			s.MQSend(o)
 		}
 		if closeAfter {
-			s.BrokerClose()
+			if b.Cfg.CloseDelay > 0 {
+				time.AfterFunc(b.Cfg.CloseDelay, s.BrokerClose)
+			} else {
+				s.BrokerClose()
+			}
 		}
 	}
 }
